@@ -149,6 +149,24 @@ def run_case(case):
     def v(sig, **kw):
         obs["viols"].append({"sig": sig, "detail": dict(kw, source=render(prog)[:1200], options=case.get("opts"))})
 
+    if kind == "library":
+        # the bundled runtime procedures are emitted text too: inside each of them (BASIC09 line numbers are local to a
+        # procedure) every GOTO / GOSUB / ON ERROR GOTO names a line that labels exactly one statement of that procedure
+        lib = harness.library()
+        obs["key"] = sorted(lib)
+        n_ = 0
+        for name, ent in sorted(lib.items()):
+            inf = static.analyse(ent["proc"])
+            for kind_j, target, idx in inf.jumps:
+                n_ += 1
+                cnt = len(inf.labels.get(target, []))
+                if cnt != 1:
+                    obs["viols"].append({"sig": "C06/library/%s/target-labels-%d-lines" % (kind_j, cnt),
+                                         "detail": {"procedure": name, "target": target}})
+        obs["counters"]["graphs_checked"] = len(lib)
+        obs["counters"]["references_checked"] = n_
+        obs["counters"]["library_jumps_checked"] = n_
+        return obs
     if kind == "boundary":
         # the largest admissible line number is 32699 (32700 is the dispatcher's)
         n = case["line"]
@@ -308,6 +326,7 @@ def cases(tier, seed):
     for i in range(n):
         yield {"kind": "graph", "seed": seed * 48271 + i, "opts": OPTS[i % len(OPTS)], "sample": i % 700 == 0, "big": i % 40 == 39, "tier": tier,
                "spacers": i % 5 == 2}
+    yield {"kind": "library", "seed": 0, "opts": {}}
     for ln in (32698, 32699, 32700, 32701, 32767, 32768, 65535, 100000):
         for o in OPTS[:2]:
             yield {"kind": "boundary", "line": ln, "seed": ln, "opts": o}
